@@ -158,9 +158,12 @@ def _read_midi_length(fileobj):
         parts.append((deltasum, tempo))
 
         duration = 0
-        for (deltasum, tempo) in parts:
-            quarter, tpq = deltasum / float(tickdiv), tempo
-            duration += (quarter * tpq)
+        try:
+            for (deltasum, tempo) in parts:
+                quarter, tpq = deltasum / float(tickdiv), tempo
+                duration += (quarter * tpq)
+        except OverflowError:
+            raise SMFError("delta time too large")
         duration /= 10 ** 6
 
         durations.append(duration)
